@@ -39,24 +39,37 @@ def machine(name, ngen, maxdec, mdocs, timeout=900):
                      workers=8, timeout=timeout, java_opts="-Xss64m -XX:ParallelGCThreads=4")
 
 
+# generator alphabets (MC_C14.tla): V0 small trees; V1 aliases, arguments of every value shape, nested
+# selection sets, a variable-driven directive; V2 named / inline fragments, abstract types, __typename
+V0 = dict(leafs="V0_Leafs", comps="V0_Comps", inlines="V0_Inlines")
 V1 = dict(leafs="V1_Leafs", comps="V1_Comps", dirs="DirsOne")
 V2 = dict(leafs="V2_Leafs", comps="V2_Comps", inlines="V2_Inlines", frags="FragsF", spread="SpreadLater", dirs="DirsOne")
 
 
 def stages(tier, seed):
+    # measured wall times with 8 TLC workers on a 16-core machine that was shared (load 15-30) while
+    # measuring: quick 75-115 s in all (machine_q 13 s, quick 60-95 s); thorough about 11 min in all
+    # (machine_t 27 s, machine_t6 21 s, fixed_t 230 s, small 18 s, v1_k1 92 s, v2_k1 ~200 s, v1_k2 63 s)
     if tier == "quick":
         return [
+            # all trees of <= 4 nodes x all policies, and { a }
             machine("machine_q", 4, 10, "{4}"),
-            family("quick", "FamsQuick", maxsel=2, maxnodes=2, maxdepth=2, **V1),
+            # fixed + type-system documents (K = 1..3, ALL policies on { a }), forms, parallel sets, sub-roots;
+            # ~40 generated documents x every single decision
+            family("quick", "FamsQuick", maxsel=2, maxnodes=2, maxdepth=2, **dict(V1, dirs="DirsNone")),
         ]
     return [
         machine("machine_t", 5, 10, "{4, 5}"),
-        machine("machine_t6", 6, 2, "{2}"),
+        machine("machine_t6", 6, 1, "{3}"),
         family("fixed_t", "FamsFixedThorough", spec="SpecFixed"),
+        # small generated trees: all triples; 2 parallel visitors; partial / enter-only visitors with pairs
+        family("small", "FamsGenSmall", maxsel=2, maxnodes=2, maxdepth=2, **V0),
+        # 510 documents x every single decision, total and partial forms
         family("v1_k1", "FamsGenMix", maxsel=2, maxnodes=3, maxdepth=2, **V1),
-        family("v2_k1", "FamsGenMix", maxsel=2, maxnodes=3, maxdepth=2, **V2),
-        family("v1_k2", "FamsGenK2", maxsel=2, maxnodes=2, maxdepth=2, **V1),
-        family("v2_par2", "FamsGenPar2", maxsel=2, maxnodes=2, maxdepth=2, **V2),
+        # 1228 documents with named / inline fragments x every single decision
+        family("v2_k1", "FamsGenK1", maxsel=2, maxnodes=4, maxdepth=2, **V2),
+        # every pair of decisions on every tree of the family
+        family("v1_k2", "FamsGenK2", maxsel=1, maxnodes=2, maxdepth=2, **V1),
     ]
 
 
